@@ -88,9 +88,10 @@ let fault_of = function
   | "nulldata" -> FtNullData | "count_less" -> FtCountLess | "count_more" -> FtCountMore
   | "status_with_data" -> FtStatusWithData | "null_entities" -> FtNullEntities | "nan_data" -> FtNaNData
   | k -> raise (Sexp_error ("fault " ^ k))
+let is_partial (k : string) = String.length k > 8 && String.sub k 0 8 = "partial/"
 let hard_kind = function
   | "status_with_data" | "null_entities" -> false
-  | _ -> true
+  | k -> not (is_partial k)
 
 exception Oracle_miss of string
 
@@ -105,19 +106,31 @@ let norm_errs (l : string list) : string list =
   let lo = List.filter (fun e -> String.length e > 2 && e.[1] = 'l') l in
   let v = List.sort_uniq compare (List.map erase_idx (List.filter (fun e -> String.length e > 2 && e.[1] = 'v') l)) in
   List.sort compare lo @ v
+(* what a partial-data fault did: the nulled field, whether the error paths are proper, the model's fault, the failed objects *)
+type pinfo = { px : string; proper : bool; pfault : pfault; failed : pelem list list }
 type run = { faults : (int * string) list; status : string; detail : string; valid : bool; env : bool; nerr : int;
-             errs : string list; data : json option; draw : string; reqs : request list }
+             errs : string list; data : json option; draw : string; reqs : request list; partials : (int * pinfo) list }
+
+let pinfo_of (x : sexp) : int * pinfo =
+  match x with
+  | L [A fid; L [A "x"; S fld]; L [A "proper"; pr]; L (A "nulls" :: ns); L (A "errs" :: es); L (A "failed" :: fl)] ->
+    (int_of_string fid,
+     { px = fld; proper = sbool pr;
+       pfault = { pf_nulls = List.map (fun k -> (n_of_int (int_of_string (atom k)), bytes_of_string fld)) ns; pf_errors = List.map json_of es };
+       failed = List.map (fun l -> List.map pelem_of (lst l)) fl })
+  | _ -> raise (Sexp_error "partials")
 
 let run_of (fetches : fetch list) (x : sexp) : run =
   match x with
-  | L [A "run"; L (A "faults" :: fl); L [A "st"; A status; S detail]; L [A "out"; _]; L [A "valid"; valid]; L [A "env"; env];
-       L [A "nerr"; A nerr]; L (A "errs" :: errs); L [A "data"; data]; L [A "draw"; S draw]; L (A "reqs" :: reqs); L [A "us"; _]] ->
+  | L (A "run" :: L (A "faults" :: fl) :: L [A "st"; A status; S detail] :: L [A "out"; _] :: L [A "valid"; valid] :: L [A "env"; env] ::
+       L [A "nerr"; A nerr] :: L (A "errs" :: errs) :: L [A "data"; data] :: L [A "draw"; S draw] :: L (A "reqs" :: reqs) :: L [A "us"; _] :: more) ->
     let find id = List.find (fun f -> int_of_n f.f_id = id) fetches in
     { faults = List.map (function L [A fid; A k] -> (int_of_string fid, k) | _ -> raise (Sexp_error "fault")) fl;
       status; detail; valid = sbool valid; env = sbool env; nerr = int_of_string nerr;
       errs = norm_errs (List.map print_sexp errs);
       data = (match data with L [A "some"; j] -> Some (json_of j) | _ -> None);
       draw;
+      partials = (match more with [L (A "partials" :: ps)] -> List.map pinfo_of ps | _ -> []);
       reqs = List.map (function
         | L [A "rq"; A fid; S ds; hdr; ftr; L (A "reps" :: reps)] ->
           let f = find (int_of_string fid) in
@@ -136,8 +149,17 @@ let req_key (r : request) =
 
 let handle (x : sexp) : (string * string) list =
   match x with
-  | L [A "c07"; L (A "meta" :: _); L [A "plan"; rootx; L (A "fetches" :: fxs); L [A "tree"; tx]]; L [A "prov"; px]; L [A "ref"; refx];
-       L (A "oracle" :: ox); L (A "runs" :: rxs)] ->
+  | L (A "c07" :: L (A "meta" :: _) :: L [A "plan"; rootx; L (A "fetches" :: fxs); L [A "tree"; tx]] :: L [A "prov"; px] :: L [A "ref"; refx] ::
+       L (A "oracle" :: ox) :: L (A "runs" :: rxs) :: topt) ->
+    (* ResolverOptions.ValidateRequiredExternalFields and the FetchReasons (nullable @requires inputs) per fetch *)
+    let (vre, coord_tab) =
+      match topt with
+      | [L [A "taint"; L [A "vre"; v]; L (A "coords" :: cs)]] ->
+        (sbool v, List.map (function
+           | L (A fid :: l) -> (int_of_string fid, List.map (function L [S t; S f] -> (bytes_of_string t, bytes_of_string f) | _ -> raise (Sexp_error "coord")) l)
+           | _ -> raise (Sexp_error "coords")) cs)
+      | _ -> (false, []) in
+    let coords fid = match List.assoc_opt (int_of_n fid) coord_tab with Some l -> l | None -> [] in
     let root = node_of rootx in
     let fetches = List.map fetch_of fxs in
     let tree = tree_of fetches tx in
@@ -173,7 +195,8 @@ let handle (x : sexp) : (string * string) list =
       let n = String.length s and m = String.length sub in
       let rec go i = i + m <= n && (String.sub s i m = sub || go (i + 1)) in go 0 in
     let causes (r : run) : string list =
-      (if List.exists (fun (_, k) -> k = "status_with_data") r.faults then ["status-ignored-with-data"] else []) in
+      (if List.exists (fun (_, k) -> k = "status_with_data") r.faults then ["status-ignored-with-data"] else []) @
+      (if List.exists (fun (fid, _) -> kind_of (n_of_int fid) = FEntity) r.partials then ["taint-single-entity-fetch-ignored"] else []) in
     let add i (r : run) s d =
       let fl = String.concat "," (List.map (fun (f, k) -> Printf.sprintf "%d:%s" f k) r.faults) in
       res := (s, Printf.sprintf "%s run=%d faults=[%s] causes=[%s] %s" (List.hd (String.split_on_char ' ' d)) i fl
@@ -202,21 +225,44 @@ let handle (x : sexp) : (string * string) list =
               if not (affected_null_b root [] pt ref0 dF) then
                 add i r "specfail" ("base_ref the fault-free response differs from the lab's reference: expected " ^
                                     quote_string (string_of_bytes (marshal (expected_data root [] pt ref0))))
-            end else begin
+            end else if r.partials = [] then begin
               (match base.data with
                | Some d0 -> if not (agree_b aff pt d0 dF) then add i r "specfail" "unaffected_equal data that depends on no failed request changed"
                | None -> ());
               if not (affected_null_b root aff pt ref0 dF) then
                 add i r "specfail" ("affected_null expected " ^ quote_string (string_of_bytes (marshal (expected_data root aff pt ref0))));
               (match base.data with Some d0 -> if not (json_eqb d0 dF) then incr nt | None -> ())
+            end else begin
+              (* "errors with partial data": with the option on and a properly named entity, isolation at entity granularity *)
+              (match r.partials, r.faults with
+               | [(fid, pi)], [_] when vre && pi.proper ->
+                 let order = fetches_of tree in
+                 let pos g = let rec go i = function [] -> max_int | h :: t -> if h.f_id = g.f_id then i else go (i + 1) t in go 0 order in
+                 let f = List.find (fun g -> int_of_n g.f_id = fid) fetches in
+                 let rec prefix a b = match a, b with [], _ -> true | x :: a', y :: b' -> x = y && prefix a' b' | _ -> false in
+                 let affd = affected fetches [f.f_id] in
+                 let dreq = List.filter_map (fun g -> if g.f_id <> f.f_id && List.mem g.f_id affd && g.f_path = f.f_path then Some g.f_id else None) fetches in
+                 let later = List.filter_map (fun g -> if not (List.mem g.f_id affd) && pos g > pos f && prefix g.f_path f.f_path then Some g.f_id else None) fetches in
+                 let x = bytes_of_string pi.px in
+                 if not (taint_isolated_b root pi.failed x dreq [] pt ref0 dF) then begin
+                   if taint_isolated_b root pi.failed x dreq later pt ref0 dF then
+                     add i r "specfail" ("taint_isolated [taint-filters-independent-fetches] expected " ^
+                                         quote_string (string_of_bytes (marshal (expected_taint root pi.failed x dreq [] pt ref0))))
+                   else
+                     add i r "specfail" ("taint_isolated expected " ^
+                                         quote_string (string_of_bytes (marshal (expected_taint root pi.failed x dreq [] pt ref0))))
+                 end
+               | _ -> ());
+              (match base.data with Some d0 -> if not (json_eqb d0 dF) then incr nt | None -> ())
             end));
-      if i > 0 && not (requests_subset_b base.reqs r.reqs) then
+      if i > 0 && (r.partials = [] || (vre && List.for_all (fun (_, pi) -> pi.proper) r.partials)) && not (requests_subset_b base.reqs r.reqs) then
         add i r "specfail" ("requests_subset a request under the faults is not covered by a fault-free request: " ^
                             String.concat " " (List.map show_req r.reqs));
       (* ---------------- the loader model on the same plan, oracle and faults *)
-      let faults fid = match List.assoc_opt (int_of_n fid) r.faults with Some k -> Some (fault_of k) | None -> None in
+      let faults fid = match List.assoc_opt (int_of_n fid) r.faults with Some k when not (is_partial k) -> Some (fault_of k) | _ -> None in
+      let partials fid = match List.assoc_opt (int_of_n fid) r.partials with Some pi -> Some pi.pfault | None -> None in
       (try
-        let (s, _) = load (faulty_exchange answer root_answer kind_of faults) tree () in
+        let ((s, _), _) = load_t (partial_exchange answer root_answer kind_of faults partials) vre coords tree () in
         let o = finish root s in
         let mreqs = List.sort compare (List.map req_key s.ls_reqs) and ireqs = List.sort compare (List.map req_key r.reqs) in
         if mreqs <> ireqs then
